@@ -218,7 +218,7 @@ theorem toBits_ok {x : LinComb} {bits : Option Nat} {bs : List LinComb} {s s' : 
 
 theorem assertPositive_ok {x : LinComb} {bits : Option Nat} {s s' : St} {u : Unit}
     (hg : s.guard = none) (h : assertPositive x bits s = .ok (u, s')) :
-    ∃ vs : List Int, vs.length = s.bitlength ∧
+    ∃ vs : List Int, vs.length = bits.getD s.bitlength ∧
       s' = s.ext vs (toBitsCons s.priv.length x vs) := by
   unfold assertPositive at h
   simp only at h
@@ -457,7 +457,7 @@ theorem assertRange_ok {x lo hi : LinComb} (hg : s.guard = none)
     ∃ vs1 vs2 : List Int, vs1.length = s.bitlength ∧ vs2.length = s.bitlength ∧
       s' = s.ext (vs1 ++ vs2)
         (toBitsCons s.priv.length (x.sub lo) vs1 ++
-         toBitsCons (s.priv.length + s.bitlength) (hi.sub x) vs2) := by
+         toBitsCons (s.priv.length + s.bitlength) ((hi.sub x).subI 1) vs2) := by
   unfold assertRange at h; split at h
   · cases h
   · obtain ⟨u1, s1, h1, h2⟩ := bind_ok.mp h
